@@ -4,7 +4,7 @@
     [expect_val], [render_prot], [assign_all], [lookup], [keys], [first_keys]. *)
 From Coq Require Import List Bool ZArith NArith QArith.
 From DV Require Import Common.Res Common.Str Common.F64 Common.PyNum Common.PyNumFacts
-                       Phoenix.Model Phoenix.Spec Phoenix.Proofs Phoenix.ProofsCsa Phoenix.Examples.
+                       Phoenix.Model Phoenix.Spec Phoenix.Proofs Phoenix.ProofsCsa Phoenix.ProofsSound Phoenix.Examples.
 Import ListNotations.
 Open Scope N_scope.
 
@@ -52,7 +52,72 @@ Proof. exact blank. Qed.
 Example C16_blank_ex : parse_line ([32; 9] ++ 35 :: ex_comment) DELIM1 = Ok None.
 Proof. apply (C16_blank DELIM1 (or_intror eq_refl) [32;9]%N eq_refl). Qed.
 
-(** Malformed lines raise the parse error -- never a wrong value. *)
+(** CONVERSE of C16_roundtrip -- every accepted line IS a rendering of the pair it returns:
+    [line = ws0 k ws1 '=' ws2 tok ws3 [# comment]] with [k] the returned key and [tok] a value text
+    that [denotes] the returned value (Spec.denotes: string between the dialect's delimiters, or a
+    text accepted by int() / int(,16) / float(), tried in this order).  So a line that is not of this
+    form is never turned into a value ("never a wrong value").
+    Known looseness, all visible in the statement:
+    - the LOOSE hex clause of [denotes]: after int(tok) refused, ANY text int(tok,16) accepts is an
+      integer, with or without 0x -- bare hex-digit words (1e5, dead) included; with CPython >= 3.11 a
+      decimal token of more than 4300 digits also lands there (the model's [py_int] has no limit);
+    - the decimal / float clauses admit every spelling int() / float() accept ('+5', '007', '1_0', '.5');
+    - the key is only known to be free of '=' and of outer blanks: it may contain '#' or quote
+      characters (Example C16_loose_key below), i.e. lie outside [good_key]. *)
+Theorem C16_parse_line_sound : forall d, dialect d -> forall line k v,
+  parse_line line d = Ok (Some (k, v)) ->
+  exists ws0 ws1 ws2 tok ws3 comment,
+    line = render_line ws0 k ws1 ws2 tok ws3 comment
+    /\ all_space ws0 = true /\ all_space ws1 = true /\ all_space ws2 = true /\ all_space ws3 = true
+    /\ lacks 61 k = true /\ py_strip k = k
+    /\ denotes d tok v.
+Proof. exact parse_line_sound. Qed.
+
+Example C16_parse_line_sound_ex :      (* instantiated on the accepted line  k = <q>a#b<q> # c *)
+  exists ws0 ws1 ws2 tok ws3 comment,
+    ex_line_q = render_line ws0 [107] ws1 ws2 tok ws3 comment /\ denotes DELIM1 tok (PStr [97; 35; 98]).
+Proof.
+  destruct (C16_parse_line_sound DELIM1 (or_intror eq_refl) ex_line_q [107] (PStr [97; 35; 98]) eq_refl)
+    as [ws0 [ws1 [ws2 [tok [ws3 [comment [E [_ [_ [_ [_ [_ [_ Hden]]]]]]]]]]]]].
+  now exists ws0, ws1, ws2, tok, ws3, comment.
+Qed.
+Example C16_loose_hex : denotes DELIM2 [49; 101; 53] (PInt 485%Z).          (* 1e5 denotes 485 *)
+Proof. cbn. repeat split. right. split; reflexivity. Qed.
+Example C16_loose_key :
+  parse_line ex_line_loose_key DELIM1 = Ok (Some ([97; 34; 35; 98], PStr [120]))
+  /\ good_key DELIM1 [97; 34; 35; 98] = false.
+Proof. split; reflexivity. Qed.
+
+(** CONVERSE of C16_blank: only blank and comment-only lines are ignored. *)
+Theorem C16_none_sound : forall d line,
+  parse_line line d = Ok None ->
+  all_space line = true \/ exists ws text, line = ws ++ 35 :: text /\ all_space ws = true.
+Proof. exact parse_line_none_sound. Qed.
+
+Example C16_none_sound_ex : exists ws text, ([32; 9] ++ 35 :: ex_comment) = ws ++ 35 :: text /\ all_space ws = true.
+Proof.
+  destruct (C16_none_sound DELIM1 ([32; 9] ++ 35 :: ex_comment) eq_refl) as [H | H]; [discriminate H | exact H].
+Qed.
+
+(** Exact partial inverse on bare value texts: for a good key and a text without '#', quote and
+    outer blanks, the rendered line is accepted with value [v] IFF the text denotes [v]
+    (for quoted strings the two directions are C16_roundtrip and C16_parse_line_sound). *)
+Theorem C16_bare_accepts_iff : forall d, dialect d ->
+  forall ws0 key ws1 ws2 tok ws3 comment v,
+  all_space ws0 = true -> all_space ws1 = true -> all_space ws2 = true -> all_space ws3 = true ->
+  good_key d key = true -> bare_text tok = true ->
+  (parse_line (render_line ws0 key ws1 ws2 tok ws3 comment) d = Ok (Some (key, v)) <-> denotes d tok v).
+Proof. exact bare_accepts_iff. Qed.
+
+Example C16_bare_accepts_iff_ex :      (* key = +007 # comment   is the integer 7 *)
+  parse_line (render_line [] ex_key1 [32] [32] [43; 48; 48; 55] [32] (Some ex_comment)) DELIM2 = Ok (Some (ex_key1, PInt 7%Z)).
+Proof.
+  apply (C16_bare_accepts_iff DELIM2 (or_introl eq_refl)); try reflexivity.
+  cbn. repeat split. now left.
+Qed.
+
+(** Malformed lines raise the parse error -- never a wrong value (four explicit shapes; the general
+    statement is C16_parse_line_sound above). *)
 Theorem C16_malformed : forall d, dialect d ->
   (* no '=' in a line that has something in front of its first '#' *)
   (forall line, lacks 61 line = true -> py_strip (before_hash line) <> [] ->
